@@ -106,8 +106,8 @@ Section Spec.
     else Some (map (fun d => (od_dest d, effective d conf cli)) descs).
 End Spec.
 
-(* finding classes *)
-(* KF_C20_1: a string value that starts with "-" (TOML or command line): argparse takes it for an option *)
+(* former finding classes KF_C20_1 (a value that starts with "-") and KF_C20_2 (a TOML boolean for an integer option):
+   repaired by 896d4cc and 954a4ba; the predicates stay so that a return of either behaviour is named in the replay *)
 Definition KF_C20_1 (conf : list (string * tval)) (cli : list item) : bool :=
   existsb (fun kv => match snd kv with
                      | TStr s => option_like s
@@ -115,8 +115,6 @@ Definition KF_C20_1 (conf : list (string * tval)) (cli : list item) : bool :=
                      | _ => false
                      end) conf
   || existsb (fun it => match it_value it with Some s => option_like s | None => false end) cli.
-(* KF_C20_2: a TOML bool for an int option passes the type check (bool is an int in Python): `true` is
-   rejected by argparse, `false` is silently ignored *)
 Definition KF_C20_2 (toml_types : list (string * ttype)) (conf : list (string * tval)) : bool :=
   existsb (fun kv => match type_of_key toml_types (fst kv), snd kv with Some TTInt, TBool _ => true | _, _ => false end) conf.
 
